@@ -218,7 +218,7 @@ pub proof fn lemma_rt_child_kept<P: Prefix, T>(t0: Seq<Node<P, T>>, l0: ISet<int
         grp.is_some() ==> tb[grp.unwrap() as int] == t0[grp.unwrap() as int],
         par.is_some() ==> lb.contains(par.unwrap() as int),
         lb.contains(idx as int) ==> rm_pre(tb, lb, idx as int, par, par_right, grp, grp_right),
-        kb(tb, idx as int) == kb(t0, idx as int),
+        kb(tb, idx as int) == kb(t0, idx as int), tb[idx as int].prefix == t0[idx as int].prefix,
         chd(tb, idx as int, !s).is_some() ==> kb(tb, chd(tb, idx as int, !s).unwrap() as int) == kb(t0, chd(tb, idx as int, !s).unwrap() as int),
 {
     reveal(rt_frame);
